@@ -82,6 +82,9 @@ def pairs(tier):
     add("named-number single own-type", "", f"A ::= {nn} (last)", f"A ::= {nn} ({P2})", None, 2)
     add("named-number component", "", f"A ::= SEQUENCE {{ a {nn} (first..MAX) }}", f"A ::= SEQUENCE {{ a {nn} ({P1}..MAX) }}", None, 2)
     for tn in ('N', 'Zn'):
+        clash = "Aa ::= INTEGER { first(1), last(2) } (0..100) "
+        add(f"named-number through type-reference, names also declared by an earlier type [{tn}]", clash + f"{tn} ::= {nn}", f"Mm ::= {tn} (first..last)", f"Mm ::= {tn} ({P1}..{P2})", ordered, 2)
+        add(f"named-number through type-reference component, names also declared by an earlier type [{tn}]", clash + f"{tn} ::= {nn}", f"Mm ::= SEQUENCE {{ a {tn} (first..MAX) }}", f"Mm ::= SEQUENCE {{ a {tn} ({P1}..MAX) }}", None, 2)
         add(f"named-number through type-reference [{tn}]", f"{tn} ::= {nn}", f"Mm ::= {tn} (first..last)", f"Mm ::= {tn} ({P1}..{P2})", ordered, 2)
         add(f"named-number through type-reference component [{tn}]", f"{tn} ::= {nn}", f"Mm ::= SEQUENCE {{ a {tn} (first..MAX) }}", f"Mm ::= SEQUENCE {{ a {tn} ({P1}..MAX) }}", None, 2)
     # ---- COMPONENTS OF
